@@ -72,7 +72,7 @@ def model_session(radi, src, c, dt, dur, K, recs, direct=False, dirfac=None, rdi
     return tok
 
 
-def scene_ties(radi, src, recs, eps=1e-9):
+def scene_ties(radi, src, recs, eps=1e-9, axis_exact=True):
     """near-ties of the nearest-direction lookups of a scene: (set of (i,j) with an
     out-index tie, True if any incoming/source/receiver lookup has a tie).  A tie is decided
     by the last bit of the normalised direction, where numpy's BLAS norm and the model's
@@ -87,7 +87,7 @@ def scene_ties(radi, src, recs, eps=1e-9):
     def tie(dirs, v):
         if dirs.shape[0] < 2:
             return False
-        if np.count_nonzero(v) == 1:
+        if axis_exact and np.count_nonzero(v) == 1:
             # axis-parallel difference: its norm and the normalised vector are exact in both
             # implementations, so an exact tie is broken identically (first index)
             return False
@@ -113,13 +113,13 @@ def scene_ties(radi, src, recs, eps=1e-9):
     return out_ties, other
 
 
-def compare_stages(radi, impl, out, K, recs, dur, dt, src=None, directional=None):
+def compare_stages(radi, impl, out, K, recs, dur, dt, src=None, directional=None, axis_exact=True):
     """out: list of (name, tokens) from the driver, in the order of model_session.
     directional: True if some BRDF table depends on the direction indices (then a lookup tie
     makes the whole case a near-decision input); None = decide from the tables."""
     mism = []
     maxulp = 0.0
-    out_ties, other_ties = scene_ties(radi, src, recs)
+    out_ties, other_ties = scene_ties(radi, src, recs, axis_exact=axis_exact)
     if directional is None:
         tb = np.array(radi._brdf)
         directional = bool(np.any(tb != tb[:, :1, :1, :]))
